@@ -21,7 +21,9 @@ RULE_TEXT = (
     "endpoint (bracketed, bare, alias) x declaration-before/after-use, plus the three-line alias/name mixtures. Random "
     "part: Hypothesis relation over 1-8 components (identifier, dotted, or blank-containing bracketed names with alias), "
     "random declaration, reference and arrow forms, random line order, 1-3 blanks between tokens, noise text outside the "
-    "tags; negative cases with a tag removed must raise PumlParsingError. Oracle: the generated relation itself "
+    "tags; negative cases with a tag removed must raise PumlParsingError; a quarter of the random cases and one exhaustive "
+    "family are sequences of 2-3 diagrams parsed one after the other (fresh parser each) in which an alias token of one "
+    "diagram is a component name of another. Oracle: the generated relation itself "
     "(component set and dependor->dependees map). Non-trivial: a component is referenced by alias in one line and by "
     "name in another, or a dotted name occurs, or >= 2 arrow forms are used."
 )
@@ -95,6 +97,23 @@ def render(spec) -> tuple:
 
 
 def check_case(spec: dict) -> dict:
+    """One diagram, or (spec['then']) a sequence of diagrams parsed one after the other in the same process, each by a
+    fresh PumlParser and each judged on its own: anything a parse remembers shows up as a wrong result of a later one."""
+    res = check_one(spec)
+    for i, nxt in enumerate(spec.get("then", [])):
+        r = check_one(nxt)
+        res["violations"] += [dict(v, sig=v["sig"] + "/after-earlier-parse", detail=f"diagram #{i + 2} of a sequence: " + str(v["detail"]))
+                              for v in r["violations"]]
+        res["nontrivial"] = res["nontrivial"] or r["nontrivial"]
+    if spec.get("then"):
+        res["labels"] = res["labels"] + ["sequence-of-diagrams"]
+        toks = {c["alias"] for c in spec["components"] if c.get("alias")}
+        if any(c["name"] in toks for nxt in spec["then"] for c in nxt["components"]):
+            res["labels"].append("earlier-alias-token-is-later-component-name")
+    return res
+
+
+def check_one(spec: dict) -> dict:
     text, names, deps = render(spec)
     path = write_puml(text)
     try:
@@ -168,6 +187,24 @@ def exh_shard(arg, stt, deadline) -> None:
             stt.record(spec3, check_case(spec3), enumerated=True, sample=(i % 509 == 1))
 
 
+def seq_shard(arg, stt, deadline) -> None:
+    """Two diagrams parsed in sequence: the first declares an alias, the second uses that token as a component name
+    (every declaration form / reference form), and the reverse order."""
+    shard, nshards = arg
+    i = 0
+    for d1, d2, ref2, arrow, rev in product(["br_as", "comp_br_as"], DECLS[:4], ["br", "bare"], ARROWS, (False, True)):
+        i += 1
+        if i % nshards != shard:
+            continue
+        first = {"components": [{"name": "persistence", "decl": d1, "alias": "db"}, {"name": "core", "decl": "br"}],
+                 "arrows": [{"a": 1, "b": 0, "arrow": arrow, "ra": "br", "rb": "alias"}]}
+        second = {"components": [{"name": "db", "decl": d2}, {"name": "x", "decl": "none"}],
+                  "arrows": [{"a": 0, "b": 1, "arrow": arrow, "ra": ref2, "rb": "br"}]}
+        a, b = (second, first) if rev else (first, second)
+        spec = dict(a, then=[b, a])
+        stt.record(spec, check_case(spec), enumerated=True, sample=(i % 37 == 1))
+
+
 # ------------------------------------------------------------------------------ random
 
 IDENTS = ["a", "b", "ab", "core", "util", "x1", "my_comp", "A", "Bee", "svc2"]
@@ -178,12 +215,16 @@ NOISE = ["", "some text\n", "title: foo\nbar baz\n", "' comment\n\n"]
 
 
 @st.composite
-def diagrams(draw):
+def diagrams(draw, shared_tokens=False):
     n = draw(st.integers(1, 8))
     style = draw(st.sampled_from(["ident", "dotted", "mixed"]))
     pool = IDENTS if style == "ident" else (DOTTED if style == "dotted" else IDENTS + DOTTED + BLANKED)
+    if shared_tokens:
+        # component names and alias tokens come from one pool (disjoint within a diagram, not across diagrams)
+        pool = pool + ALIASES[:4]
     names = draw(st.lists(st.sampled_from(pool), min_size=n, max_size=n, unique=True))
-    aliases = draw(st.permutations(ALIASES))
+    aliases = draw(st.permutations([a for a in ALIASES + (IDENTS[:4] if shared_tokens else []) if a not in names]))
+    aliases = list(aliases) + [f"sp{i}" for i in range(8)]
     comps = []
     for i, nm in enumerate(names):
         if " " in nm:
@@ -216,8 +257,16 @@ def diagrams(draw):
             "post": "\n" + draw(st.sampled_from(NOISE)), "drop": drop}
 
 
+@st.composite
+def cases(draw):
+    if draw(st.integers(0, 3)) > 0:
+        return draw(diagrams())
+    first = draw(diagrams(shared_tokens=True))
+    return dict(first, then=draw(st.lists(diagrams(shared_tokens=True), min_size=1, max_size=2)))
+
+
 def strategy(tier):
-    return diagrams()
+    return cases()
 
 
 def run(ctx) -> None:
@@ -225,4 +274,6 @@ def run(ctx) -> None:
     shards = [(n1, n2, i, nsh) for (n1, n2) in (("compA", "compB"), ("src.A.fileA", "src.B")) for i in range(nsh)]
     ctx.exhaustive("two-component-forms", MOD, "exh_shard", shards,
                    "2 name styles x 6x6 declaration forms x 6 arrow forms x 3x3 reference forms x declaration before/after use, plus a second arrow referring to the dependor in another form")
+    ctx.exhaustive("alias-token-reused-as-component-in-next-diagram", MOD, "seq_shard", [(i, 8) for i in range(8)],
+                   "2 alias declaration forms x 4 declaration forms x 2 reference forms x 6 arrow forms x both orders, three parses per case")
     ctx.random("random-diagrams", MOD, "strategy", "check_case", 6000 if ctx.tier == "quick" else 150000)
